@@ -109,6 +109,9 @@ def check_graph(ns, I, seed, res, mono_pairs):
     # the same laws with one side given by a regex (which may also match the other side)
     import re as _re
 
+    last_leaf = [n for n in ns if not any(m.startswith(n + ".") for m in ns)][-1]
+    keep = [n for n in ns if n != last_leaf]
+    decoy = build(keep, [(u, v) for u, v in I if u in keep and v in keep], seed) if len(keep) >= 2 else None
     rx = [".*", _re.escape(ns[0]) + r"\..*"]
     for a in cand:
         rx += ["^" + _re.escape(a) + "$", _re.escape(a)]
@@ -126,6 +129,21 @@ def check_graph(ns, I, seed, res, mono_pairs):
                                      lambda o: {o[0], o[1]} == {"PASS", "FAIL"} or (o[0] == o[1] and o[0].startswith("ERR"))))
                 for name, specs, pred in laws:
                     o = [out(x, ev, seed, cache) for x in specs]
+                    if decoy is not None and name == "duality":
+                        # the same law on rule objects that were applied to another architecture (other
+                        # module set, hence other matches of the regex) before
+                        o2 = []
+                        for x in specs:
+                            r = mkrule(x, seed)
+                            run_rule(r, decoy)
+                            g = run_rule(r, ev)
+                            o2.append(g[0] if g[0] != "ERR" else "ERR:" + g[1].split(":")[0])
+                        if res is not None:
+                            res.transitions += 4
+                            res.stats["regex-law-reused-rule-object"] += 1
+                        if o2 != o:
+                            viol.append((name, [spec_to_json(x) for x in specs], {"fresh": o, "re-used": o2}, None))
+                            continue
                     if res is not None:
                         res.traces += 1
                         res.stats[name] += 1
